@@ -33,6 +33,8 @@ DevMarks == Dev = "SharedMarks"
 DevInProgress == Dev = "SharedInProgress"
 DevMemo == Dev = "StaleMemo"
 DevError == Dev = "SharedError"
+DevSort == Dev = "SortInPlace"
+DevConvert == Dev = "ConvertInPlace"
 DevNoMutex == Dev = "NoStepMutex"
 DevEnum == Dev = "EnumEarlyReturn"
 
@@ -47,6 +49,8 @@ DevKinds ==
       [] Dev = "SharedInProgress" -> {"compat2"}
       [] Dev = "StaleMemo" -> {"units", "units0"}
       [] Dev = "SharedError" -> {"disabled"}
+      [] Dev = "SortInPlace" -> {"objdep"}
+      [] Dev = "ConvertInPlace" -> {"anylist"}
       [] Dev = "NoStepMutex" -> {"steps"}
       [] Dev = "EnumEarlyReturn" -> {"enum"}
       [] OTHER -> {}
@@ -86,5 +90,6 @@ WitnessHistory == ~HistoryFree => Wit("history")
 WitnessDeterministic == ~Deterministic => Wit("nondeterministic")
 WitnessCache == ~CacheIntegrity => Wit("cache")
 WitnessArgument == ~ArgumentPreserved => Wit("argument")
+WitnessDescribe == ~DescribeUnchanged => Wit("describe")
 WitnessInitOnce == ~InitOnce => Wit("initonce")
 =============================================================================
